@@ -42,10 +42,22 @@ def mcnpLexerText (keywords : List String) (w : String) : String :=
   | some t => t
   | none => if keywords.contains (lower w) then "KEYWORD" else "TEXT"
 
-/-- tokens.py:ParticleLexer.TEXT (CellLexer and DataLexer inherit it): the keyword test comes first -/
-def particleLexerText (w : String) : String :=
+/-- tokens.py:ParticleLexer._expects_particle — the word stands where only a particle designator can:
+    directly after the `:` or `,` of a classifier, among the entries of a MODE input (`firstWord` = the first word
+    of the text before the token, if any), or as the value of SDEF's PAR (`keyBefore` = the text before the token
+    with trailing blanks, `=` and blanks stripped, lower case) -/
+def expectsParticle (prev : Option Char) (firstWord : Option String) (keyBefore : String) : Bool :=
+  let rev := keyBefore.toList.reverse
+  (prev == some ':' || prev == some ',') ||
+  (match firstWord with | some f => lower f == "mode" | none => false) ||
+  (rev.take 3 == ['r', 'a', 'p'] && !(match (rev.drop 3).head? with | some c => c.isAlphanum | none => false))
+
+/-- tokens.py:ParticleLexer.TEXT (CellLexer and DataLexer inherit it): a particle letter where only a particle
+    can stand is a PARTICLE (repaired code); otherwise the keyword test comes first -/
+def particleLexerText (expects : Bool) (w : String) : String :=
   let t := mcnpLexerText Tokens.particleLexerKeywords w
-  if Tokens.particleLexerKeywords.contains (lower w) then "KEYWORD"
+  if Tokens.particleLexerParticles.contains (lower w) && expects then "PARTICLE"
+  else if Tokens.particleLexerKeywords.contains (lower w) then "KEYWORD"
   else if Tokens.particleLexerParticles.contains (lower w) then "PARTICLE"
   else t
 
@@ -103,10 +115,15 @@ structure Param where
   pfx : String
   /-- `str(classifier.particles)`: `":n,p"`, or `""` -/
   particles : String
+  /-- `str(classifier.number.value)` (canonical decimal digits), or `""` when the classifier has no number -/
+  number : String := ""
   deriving DecidableEq, Repr
 
-/-- syntax_node.py:ParametersNode.append — the dictionary key (the classifier's number is NOT part of it) -/
-def Param.key (p : Param) : String := lower (p.pfx ++ p.particles)
+/-- syntax_node.py:ParametersNode.append — the characters of the dictionary key: prefix, number, particles,
+    lower-cased (`str.lower()` leaves the digits of the number alone).  Repaired code: the number is part of it. -/
+def Param.keyChars (p : Param) : List Char := (lower p.pfx).toList ++ p.number.toList ++ (lower p.particles).toList
+
+def Param.key (p : Param) : String := String.ofList p.keyChars
 
 /-- syntax_node.py:ParametersNode.append over the parameters in order: `none` = RedundantParameterSpecification -/
 def appendAll : List Param → List String → Option (List String)
